@@ -7,7 +7,7 @@
    plumbing never looks at a payload except through marshal / unmarshal.  The same for the whole
    endpoint (Link.v carries values abstractly) is by construction of the model; the sweep of the
    check compares real transcripts across 16 configurations. *)
-From Verif Require Import Base Stream Wire WireProofs.
+From Verif Require Import Base Stream StreamG StreamGProofs Wire WireProofs.
 
 Theorem stream_is_message_requests :
   forall l, req_view l = map RFrame (requests_of l) ++ match first_err l with Some n => [RFail n] | None => [] end.
@@ -54,3 +54,27 @@ Example two_serializers :
       (handler_args nat (nat * bool) nat (fun p t => fst p + t) (0, false) [PCtx nat; PData nat 100; PFunc nat]
                     (request_args nat (nat * bool) (fun v => (v, true)) (0, false) [CCtx nat; CData nat 1; CFunc nat 7])).
 Proof. reflexivity. Qed.
+
+(* ---- the same at goroutine level (StreamG.v: decode goroutine, two unbuffered channels, two read functions,
+   decodeDone, the link context; every interleaving, either variant): what the read functions have returned so
+   far is, in order, a prefix of the request members resp. of the response members of the envelope sequence -
+   the message-API view of the same traffic - and nothing is lost once the input has been consumed ---- *)
+Theorem stream_goroutines_refine_the_views :
+  forall v input s, greachable v input s ->
+    (exists rest, requests_of input = rev (frames (outq s)) ++ rest) /\
+    (exists rest, responses_of input = rev (frames (outs s)) ++ rest).
+Proof. exact stream_refines_lemma. Qed.
+Print Assumptions stream_goroutines_refine_the_views.
+
+Theorem stream_goroutines_lose_nothing :
+  forall v input s, greachable v input s -> inp s = [] -> dec s = DRead ->
+    requests_of input = rev (frames (outq s)) /\ responses_of input = rev (frames (outs s)).
+Proof. exact stream_complete_lemma. Qed.
+Print Assumptions stream_goroutines_lose_nothing.
+
+(* non-vacuity: a combined envelope, a keep-alive envelope and a request-only envelope, fully consumed *)
+Example stream_run :
+  exists s, grun fixed (ginit [SEnv (mkEnv (Some 1%N) (Some 2%N)); SEnv (mkEnv None None); SEnv (mkEnv (Some 3%N) None)])
+                 [AReadReq; AReadRes; ADecode; AHandReq; AHandRes; ADecode; ADecode; AReadReq; AHandReq] = Some s /\
+            inp s = [] /\ dec s = DRead /\ outq s = [RFrame 3%N; RFrame 1%N] /\ outs s = [RFrame 2%N].
+Proof. eexists. split; [vm_compute; reflexivity|]. vm_compute. auto. Qed.
